@@ -575,7 +575,10 @@ func ExecutePlan(plan *Plan, p ExecuteParams) (result *Result) {
 
 	extErrs, executionFinishFn := handleExtensionsExecutionDidStart(&p)
 	if len(extErrs) != 0 {
-		return &Result{Errors: extErrs}
+		// finish the phase for the extensions that did start it
+		result = &Result{Errors: extErrs}
+		result.Errors = append(result.Errors, executionFinishFn(result)...)
+		return result
 	}
 	defer func() {
 		extErrs := executionFinishFn(result)
